@@ -121,8 +121,13 @@ def make_general_poisson_solver(
             use_leastsquares = True
 
         else:
-            # test whether the solution is good enough
-            if np.allclose(mat.dot(result), rhs, rtol=1e-5, atol=1e-5):
+            # test whether the solution is good enough. This test is only meaningful if
+            # the round-off error of the matrix product is smaller than the tolerance,
+            # which is not the case for the huge values returned for singular matrices
+            roundoff = np.finfo(float).eps * abs(mat).dot(np.abs(result))
+            if np.all(roundoff < 1e-5 + 1e-5 * np.abs(rhs)) and np.allclose(
+                mat.dot(result), rhs, rtol=1e-5, atol=1e-5
+            ):
                 logger.info("Solved Poisson problem with sparse.linalg.spsolve")
                 use_leastsquares = False
             else:
